@@ -322,7 +322,7 @@ def grammar_tree_stream(ctx, count, repl=""):
     """pattern texts printed from random trees of the grammar of coq/Proofs/GroupGrammar.v (runs of
     ordinary characters, quantified characters c? c* c+ and their reluctant forms, the anchors ^ $ under
     XPath, alternation, capturing and non-capturing groups, empty branches, any nesting): the domain of the theorems
-    C01_group_grammar_end_to_end / C06_group_grammar_tokenize_end_to_end, on which model = specification
+    C01_group_grammar_end_to_end_partial / C06_group_grammar_tokenize_end_to_end_partial, on which model = specification
     is proved; here the code is compared with both.  Own generator state."""
     rng = random.Random(ctx.seed * 32452843 + 13)
     ordinary = "abcAB-,: 1xé" + ASTRAL
